@@ -145,6 +145,7 @@ const ACCEPT_POOL: &[&str] = &[
     "", "fr", "de", "en", "pt-BR", "fr-CA", "fr-CA,fr;q=0.9,en;q=0.8", "es,fr;q=0.9", "es,it", "de-AT,de;q=0.9", "pt,en;q=0.5",
     "*", "es,*;q=0.1", "zz-ZZ,pt-BR;q=0.8", "en-US,en;q=0.9", "fr-FR", "not a language,de", ";q=1,fr", "de;q=0.9;x=y",
     "pt-br", "zh", "zh-Hant", "zh-Hant-TW", "zh-Hant-HK,zh;q=0.8", "zh-CN", "zh-Hans-CN,en;q=0.5", "es,zh-Hant-TW;q=0.7", "fr-CA-x-private", "ar", "ar-EG,en;q=0.5", "he,ar;q=0.3",
+    "es-ES,es,pt-PT,pt,it,nl,sv,da,pl,cs,fr-FR,fr,en", "es,it,nl,sv,da,pl,cs,fi,nb,hu,ro,de-AT;q=0.1",
 ];
 const ACCEPT_POOL_OWS: &[&str] = &["es, fr", "fr-CA, fr;q=0.9, en;q=0.8", "it , de", "es,\tpt-BR"];
 // "pt-BR" is the canonical spelling of the configured `pt-br`: not a configured locale name
@@ -204,7 +205,7 @@ pub fn generate(rng: &mut Rng, ows: bool) -> Plan {
                 3 | 4 => Op::Set { view: rng.below(8), l: rng.below(LOCS.len()) },
                 5 => Op::SetUntracked { view: rng.below(8), l: rng.below(LOCS.len()) },
                 6 => Op::WriteWired { sig: rng.below(3), l: rng.below(LOCS.len()) },
-                7 => Op::MakeReader { view: rng.below(8), which: rng.below(14) },
+                7 => Op::MakeReader { view: rng.below(8), which: rng.below(16) },
                 8 => {
                     if rng.chance(1, 2) {
                         Op::Resolve { ctx: rng.below(4), enable_cookie: rng.chance(4, 5), cookie_name: if rng.chance(1, 3) { Some(rng.pick(COOKIE_NAMES).to_string()) } else { None } }
@@ -968,7 +969,7 @@ pub fn execute(plan: &Plan, rng: &mut Rng) -> Outcome {
                             if !c.alive || c.pending.is_some() || !r.tracked || !c.last_change_tracked {
                                 continue;
                             }
-                            let want = r.template.replace("{L}", LOCS[c.locale]);
+                            let want = r.expected(LOCS[c.locale]);
                             let log = s.log.lock().unwrap();
                             match log.last() {
                                 Some(t) if *t == want => stats.probe("reactive_accessor_caught_up_after_flush"),
@@ -1042,7 +1043,7 @@ pub fn execute(plan: &Plan, rng: &mut Rng) -> Outcome {
                 if !c.alive || c.pending.is_some() {
                     continue;
                 }
-                let want = r.r.template.replace("{L}", LOCS[c.locale]);
+                let want = r.r.expected(LOCS[c.locale]);
                 match guarded(|| (r.r.read)()) {
                     Ok(got) if got == want => {}
                     Ok(got) => violations.push(Violation {
